@@ -103,6 +103,10 @@ class Run:
                 self.w.settle()
                 self.handshaken = {"DEV0"}
             else:
+                self.observer = None
+                if len(self.specs) >= 2 and self.kind != "blob":
+                    self.observer = self.w.devices[1].snoop_device("DEV0")
+                    self.w.settle()
                 self.client = self.w.make_client(p.get("connect"))
                 self.handshaken = {s["name"] for s in self.specs}
         except BaseException:
@@ -223,7 +227,20 @@ def vrepr(v):
     return v
 
 
-def judge(run, emitted_after_def=None):
+class ObserverView:
+    """the same run seen through the in-process snooping client of another driver (it snoops on DEV0)"""
+
+    def __init__(self, run):
+        self._run = run
+        self.client = run.observer
+        self.snoop = True
+        self.handshaken = {"DEV0"}
+
+    def __getattr__(self, name):
+        return getattr(self._run, name)
+
+
+def judge(run, emitted_after_def=None, only_device=None):
     """oracle at quiescence; returns list of (clause, disc, what)"""
     from mc.props.client_common import elval
 
@@ -252,6 +269,8 @@ def judge(run, emitted_after_def=None):
                 want.add((spec["name"], vn))
     got = set()
     for dn in client.list_devices():
+        if only_device is not None and dn != only_device:
+            continue  # (definitions are broadcast: an observer also learns devices it did not ask about)
         for vn in client.get_device(dn).list_vectors():
             got.add((dn, vn))
     if got != want:
@@ -404,6 +423,9 @@ def run_history(p, path, snoop, delivery="whole", cuts=None, chooser=None, judge
             s2c = run.w.links[0].s2c
             info["s2c_total"] = s2c.delivered
         fails = judge(run)
+        if getattr(run, "observer", None) is not None:
+            # a second observer of the same history: everybody converges, not only the client that acted
+            fails += [(c, d + ",second-observer", w) for c, d, w in judge(ObserverView(run), only_device="DEV0")]
         fails += wire_mirror_check(run)
         errs = run.w.loop.collect_errors()
         if errs:
